@@ -45,28 +45,10 @@ if not isolated:
         sh('git', '-C', '/repo', 'checkout', '--', '.')
         assert sh('git', '-C', '/repo', 'status', '--porcelain').stdout.strip() == '', '/repo not restored'
 else:
-    import fcntl
-    os.makedirs('/tmp/ev', exist_ok=True)
-    lock = open('/tmp/ev/lock', 'w')
-    fcntl.flock(lock, fcntl.LOCK_EX)
-    head = sh('git', '-C', '/repo', 'rev-parse', 'HEAD').stdout.strip()
-    if not os.path.exists('/tmp/ev/repo'):
-        r = sh('git', '-C', '/repo', 'worktree', 'add', '--detach', '/tmp/ev/repo', head)
+    sys.path.insert(0, os.path.dirname(os.path.abspath(__file__)))
+    from isoenv import Env
+    with Env() as ev:
+        r = sh('git', '-C', ev.repo, 'apply', f'{d}/patch.diff')
         assert r.returncode == 0, r.stderr
-    sh('git', '-C', '/tmp/ev/repo', 'checkout', '--', '.')
-    r = sh('git', '-C', '/tmp/ev/repo', 'checkout', '--detach', head)
-    assert r.returncode == 0, r.stderr
-    r = sh('git', '-C', '/tmp/ev/repo', 'apply', f'{d}/patch.diff')
-    assert r.returncode == 0, r.stderr
-    sh('rsync', '-a', '--delete', '--exclude', 'target', '--exclude', '.git', '--exclude', 'replays', '--exclude', 'evidence', '--exclude', '__pycache__',
-       f'{ROOT}/', '/tmp/ev/verif/')
-    os.makedirs('/tmp/ev/verif/evidence', exist_ok=True)
-    for f in ('check', 'qdriver.py', 'rt/Cargo.toml', 'q/Cargo.toml'):
-        p = f'/tmp/ev/verif/{f}'
-        s = open(p).read().replace('/repo', '/tmp/ev/repo')
-        open(p, 'w').write(s)
-    try:
-        run_checks('/tmp/ev/verif')
-    finally:
-        sh('git', '-C', '/tmp/ev/repo', 'checkout', '--', '.')
+        run_checks(ev.verif)
 json.dump(meta, open(f'{d}/meta.json', 'w'), indent=1)
